@@ -23,6 +23,7 @@ REGISTRY = {
     "C10": "constructions",
     "C11": "crossratio",
     "C12": "purity",
+    "C13": "quadctors",
     "C16": "membership",
     "C17": "measures",
     "C18": "intersect",
